@@ -1,4 +1,6 @@
 """Cauchy tie: real cauchy_dot_product vs the Lean model (values and which factor elements get evaluated)."""
+import os, sys; sys.path.insert(0, os.path.dirname(os.path.abspath(__file__)))
+from common import case_rnd, skip
 import sys, json, random, subprocess, itertools, warnings
 warnings.simplefilter("ignore")
 import numpy as np
@@ -63,6 +65,8 @@ def main(seed, ncases, driver, out):
     rnd = random.Random(seed); failures = []; stats = {}; samples = []; evals = 0; distinct = 0
     proc = subprocess.Popen([driver], stdin=subprocess.PIPE, stdout=subprocess.PIPE, text=True)
     for c in range(ncases):
+        if skip(c): continue
+        rnd = case_rnd(seed, c)
         factors, hermitian, nparams, reqs = gen_case(rnd)
         outs, logs = run_impl(factors, hermitian, nparams, reqs)
         js = {"cmd": "cauchy", "d": D, "hermitian": hermitian, "requests": reqs,
